@@ -172,16 +172,18 @@ def elabR (kindOf : Str → Option ColK) (var : Option Str) (e : Expr) : Option 
 def T (s : String) : Str := s.toList
 
 def vSchema : Schema :=
-  [ ⟨T "p", T "o", T "o", .toOne (T "o_id")⟩, ⟨T "p", T "w", T "w", .toOne (T "w_id")⟩,
-    ⟨T "p", T "kids", T "k", .toMany (T "p_id")⟩, ⟨T "p", T "tags", T "tag", .m2m (T "p_tags") (T "p_id") (T "tag_id")⟩,
-    ⟨T "k", T "p", T "p", .toOne (T "p_id")⟩, ⟨T "k", T "o", T "o", .toOne (T "o_id")⟩,
-    ⟨T "w", T "o", T "tag", .toOne (T "o_id")⟩, ⟨T "w", T "ps", T "p", .toMany (T "w_id")⟩,
-    ⟨T "o", T "ps", T "p", .toMany (T "o_id")⟩, ⟨T "o", T "ks", T "k", .toMany (T "o_id")⟩,
-    ⟨T "tag", T "ps", T "p", .m2m (T "p_tags") (T "tag_id") (T "p_id")⟩, ⟨T "tag", T "ws", T "w", .toMany (T "o_id")⟩ ]
+  [ ⟨T "p", T "o", T "o", .toOne (T "o_id") (T "id")⟩, ⟨T "p", T "w", T "w", .toOne (T "w_id") (T "id")⟩,
+    ⟨T "p", T "kids", T "k", .toMany (T "p_id") (T "id")⟩, ⟨T "p", T "tags", T "tag", .m2m (T "p_tags") (T "p_id") (T "tag_id")⟩,
+    ⟨T "k", T "p", T "p", .toOne (T "p_id") (T "id")⟩, ⟨T "k", T "o", T "o", .toOne (T "o_id") (T "id")⟩,
+    ⟨T "w", T "o", T "tag", .toOne (T "o_id") (T "id")⟩, ⟨T "w", T "ps", T "p", .toMany (T "w_id") (T "id")⟩,
+    ⟨T "o", T "ps", T "p", .toMany (T "o_id") (T "id")⟩, ⟨T "o", T "ks", T "k", .toMany (T "o_id") (T "id")⟩,
+    ⟨T "tag", T "ps", T "p", .m2m (T "p_tags") (T "tag_id") (T "p_id")⟩, ⟨T "tag", T "ws", T "w", .toMany (T "o_id") (T "id")⟩,
+    -- a foreign key that references a unique NATURAL key of the parent (d.number), not its primary key
+    ⟨T "p", T "dept", T "d", .toOne (T "dn") (T "number")⟩, ⟨T "d", T "emps", T "p", .toMany (T "dn") (T "number")⟩ ]
 
 def vKind (c : Str) : Option ColK :=
-  if c == T "id" || c == T "n" || c == T "a" || c == T "x" then some .int
-  else if c == T "name" || c == T "s" || c == T "label" then some .str
+  if c == T "id" || c == T "n" || c == T "a" || c == T "x" || c == T "number" then some .int
+  else if c == T "name" || c == T "s" || c == T "label" || c == T "title" then some .str
   else none
 
 end OQ.Spec
